@@ -166,9 +166,11 @@ func (d *defaultValidator) validateDefaultValueValidAgainstSchema() *Result {
 		}
 	}
 	if s.spec.Spec().Definitions != nil { // Safeguard
-		// reset explored schemas to get depth-first recursive-proof exploration
-		d.resetVisited()
 		for nm, def := range s.spec.Spec().Definitions {
+			// reset explored schemas to get depth-first recursive-proof exploration (per definition: the path of a
+			// property of one definition may spell the name of another, e.g. "a" with property "b" and "a.b")
+			d.resetVisited()
+
 			// validation lazily expands the $ref of sub-schemas in place: walk a private copy of the definition, not the caller's parsed document
 			sch, err := deepCloneSchema(def)
 			if err != nil {
